@@ -273,6 +273,10 @@ pub fn corrupt(args: &[String], out: &mut Out) {
         out.add("evaluations", ev);
         // upper-case form, singles only
         let up = s.to_uppercase();
+        // the upper-case form is a valid spelling of the same address: it must parse, otherwise its sweep is vacuous
+        if Address::from_str(&up).ok().as_ref() != Some(&a) {
+            out.viol(&format!("C17/base-address-does-not-parse/uppercase/{}", name), json!({"s": up}), String::new());
+        }
         let (ev2, bad2) = corrupt_address_upper(&name, &up);
         out.add("evaluations", ev2);
         if name.contains("v16-40") {
